@@ -77,6 +77,10 @@ type pathState struct {
 	model    map[string]uint64
 	memo     map[int]uint64
 	lit      map[int]bool
+	dom      map[int]*domain // exact value sets of 8-bit/Bool variables under the single-variable constraints
+	ent      map[int]bool    // variables that occur in an asserted multi-variable constraint
+	synced   int             // pc[:synced] has been sent to the solver
+	open     bool            // solver scope of this path is open
 	pc       []*Term
 	vars     []*Term
 	nBytes   int
@@ -133,6 +137,7 @@ type Engine struct {
 
 	globalOverrides map[string]func(i *interpreter) value
 
+	stats      []fastStats
 	mu         sync.Mutex
 	cond       *sync.Cond
 	work       []workItem
@@ -187,6 +192,9 @@ type Result struct {
 	SolverTime   time.Duration
 	Wall         time.Duration
 	MapRanges    int
+	DomSat       int // feasibility answered by exact value-set enumeration (sat)
+	DomUnsat     int // ... (unsat)
+	CacheSat     int // feasibility answered by a cached model
 	MaxTrace     int
 	Steps        int64
 }
@@ -245,6 +253,7 @@ func (e *Engine) Run() *Result {
 	if n <= 0 {
 		n = 1
 	}
+	e.stats = make([]fastStats, n)
 	for w := 0; w < n; w++ {
 		wg.Add(1)
 		go func(id int) {
@@ -254,6 +263,11 @@ func (e *Engine) Run() *Result {
 	}
 	wg.Wait()
 	e.Res.Wall = time.Since(start)
+	for _, st := range e.stats {
+		e.Res.DomSat += st.domSat
+		e.Res.DomUnsat += st.domUnsat
+		e.Res.CacheSat += st.cacheSat
+	}
 	return &e.Res
 }
 
@@ -277,6 +291,7 @@ func (e *Engine) worker(id int) {
 		solver:             solver,
 		id:                 id,
 		trace:              e.Opts.Trace,
+		scratch:            map[int]uint64{},
 	}
 	for {
 		it, ok := e.pop()
@@ -315,6 +330,8 @@ func (i *interpreter) runPath(it workItem) {
 		model:    it.model,
 		memo:     map[int]uint64{},
 		lit:      map[int]bool{},
+		dom:      map[int]*domain{},
+		ent:      map[int]bool{},
 		maxSteps: e.Opts.MaxSteps,
 		env:      map[string]value{},
 		envLog:   map[string][]*Term{},
@@ -336,7 +353,6 @@ func (i *interpreter) runPath(it workItem) {
 	i.globals = map[*ssa.Global]*value{}
 	i.inited = map[*ssa.Package]bool{}
 	i.funcNames = map[*value]string{}
-	i.solver.BeginPath()
 
 	outcome := "ok"
 	var abortReason string
@@ -375,9 +391,11 @@ func (i *interpreter) runPath(it workItem) {
 		outcome = "inconclusive"
 		abortReason = "replay divergence: prefix not consumed"
 	}
-	if err := i.solver.EndPath(); err != nil {
-		outcome = "inconclusive"
-		abortReason = err.Error()
+	if p.open {
+		if err := i.solver.EndPath(); err != nil {
+			outcome = "inconclusive"
+			abortReason = err.Error()
+		}
 	}
 
 	e.mu.Lock()
@@ -490,15 +508,15 @@ func (i *interpreter) abort(format string, args ...interface{}) {
 func (i *interpreter) assertLit(c *Term, v bool, forced bool) {
 	p := i.path
 	p.lit[c.id] = v
-	if forced {
-		return
-	}
 	t := c
 	if !v {
 		t = i.tb.Not(c)
 	}
+	i.narrow(t)
+	if forced {
+		return
+	}
 	p.pc = append(p.pc, t)
-	i.solver.Assert(t)
 }
 
 func (i *interpreter) setModel(m map[string]uint64) {
@@ -544,10 +562,7 @@ func (i *interpreter) decide(c *Term) bool {
 	if v {
 		other = i.tb.Not(c)
 	}
-	res, m2, err := i.solver.Check(other, p.vars)
-	if err != nil || res == Unknown {
-		i.abort("solver inconclusive on branch feasibility: %v %v", res, err)
-	}
+	res, m2 := i.feasible(other, "branch feasibility")
 	forced := res == Unsat
 	if !forced {
 		i.eng.push(workItem{prefix: copyTrace(p.trace, Decision{Kind: dBranch, Val: !v}), model: m2})
@@ -594,10 +609,7 @@ func (i *interpreter) concretize(t *Term) uint64 {
 		if known, ok := p.lit[c.id]; ok && known {
 			return v
 		}
-		res, m2, err := i.solver.Check(i.tb.Not(c), p.vars)
-		if err != nil || res == Unknown {
-			i.abort("solver inconclusive on concretisation: %v %v", res, err)
-		}
+		res, m2 := i.feasible(i.tb.Not(c), "concretisation")
 		forced := res == Unsat
 		if !forced {
 			i.eng.push(workItem{prefix: copyTrace(p.trace, Decision{Kind: dValue, V: v, Val: false}), model: m2})
@@ -653,10 +665,7 @@ func (i *interpreter) assume(c value) {
 			i.assertLit(c, true, false)
 			return
 		}
-		res, m2, err := i.solver.Check(c, p.vars)
-		if err != nil || res == Unknown {
-			i.abort("solver inconclusive on assume: %v %v", res, err)
-		}
+		res, m2 := i.feasible(c, "assume")
 		if res == Unsat {
 			p.extra["assumed"] = true
 			panic(pathEnd{})
@@ -695,18 +704,12 @@ func (i *interpreter) check(c value, label string) {
 			i.assertLit(c, true, false)
 			return
 		}
-		res, m2, err := i.solver.Check(i.tb.Not(c), p.vars)
-		if err != nil || res == Unknown {
-			i.abort("solver inconclusive on assertion %s: %v %v", label, res, err)
-		}
+		res, m2 := i.feasible(i.tb.Not(c), "assertion "+label)
 		if res == Sat {
 			i.reportViolationModel(label, "assertion can be false: "+c.String(), m2)
 			// continue under the assumption that it held, if that is possible
 			if c.Eval(p.model, p.memo) == 0 {
-				r2, m3, err := i.solver.Check(c, p.vars)
-				if err != nil || r2 == Unknown {
-					i.abort("solver inconclusive after assertion: %v %v", r2, err)
-				}
+				r2, m3 := i.feasible(c, "continuation after assertion")
 				if r2 == Unsat {
 					panic(pathEnd{})
 				}
